@@ -1334,6 +1334,7 @@ def selftest():
     K.append(("seg bulk expiration", "segdense", "YIELD", isbulk, lambda e: e.update(e=0)))
 
     K.append(("seg summary count", "segsum", "COMPLETE", lambda e: e.get("op") == "queryn" and e.get("take") == -1, lambda e: e.update(n=e["n"] - 1, nd=e["nd"] - 1)))
+    K.append(("seg clock run count", "segsum", "YIELD", lambda e: e.get("op") == "ticks", lambda e: e.update(nonempty=e["nonempty"] + 1)))
     K.append(("seg summary duplicate", "segsum", "YIELD", lambda e: e.get("op") == "queryn", lambda e: e.update(nd=e["nd"] - 1)))
     K.append(("payload instances left at drop", "cnt", "DROPS", lambda e: e.get("op") == "drop", lambda e: e.update(residue=-1)))
     K.append(("loaded start state not a red-black tree", "ind", "WF", lambda e: e.get("ev") == "load" and len(stored(e)) >= 3,
